@@ -67,6 +67,62 @@ def rekey_then_reinit_check():
     return out
 
 
+def refused_rekey_check():
+    """a state point change that is refused (the destination exists) must leave what the project remembers about the job as it was:
+    same-session open-by-id, queries, and the cache file written afterwards"""
+    import gzip
+    import hashlib
+    import json
+    import os
+    import signac
+    from signac.errors import DestinationExistsError
+    from .common import dir_scratch
+    out = []
+    ref = lambda v: hashlib.md5(json.dumps(v, sort_keys=True).encode()).hexdigest()
+    for route in ("update_statepoint", "setitem", "assign"):
+        for warm in ("cached", "uncached"):
+            with dir_scratch() as d:
+                pp = os.path.join(d, "p")
+                os.makedirs(pp)
+                p = signac.init_project(pp)
+                j = p.open_job({"a": 1}).init()
+                p.open_job({"a": 1, "b": 2}).init()
+                if warm == "uncached":
+                    p = signac.Project(pp)
+                    j = p.open_job(id=j.id)
+                old_id, old_sp = j.id, {"a": 1}
+                try:
+                    if route == "update_statepoint":
+                        j.update_statepoint({"b": 2})
+                    elif route == "setitem":
+                        j.sp.b = 2
+                    else:
+                        j.statepoint = {"a": 1, "b": 2}
+                    out.append((f"refused:{route}:{warm}", f"{route} onto an existing job did not raise DestinationExistsError"))
+                    continue
+                except DestinationExistsError:
+                    pass
+                except Exception as e:
+                    out.append((f"refused:{route}:{warm}", f"{route} onto an existing job raised {type(e).__name__}: {e}"))
+                    continue
+                try:
+                    byid = json.loads(json.dumps(p.open_job(id=old_id).statepoint()))
+                    found = sorted(x.id for x in p.find_jobs({"b": {"$exists": False}}))
+                    fn = os.path.join(pp, ".signac", "statepoint_cache.json.gz")
+                    if os.path.exists(fn):
+                        os.remove(fn)
+                    p.update_cache()
+                    disk = json.loads(gzip.open(fn, "rb").read().decode())
+                except Exception as e:
+                    out.append((f"refused:{route}:{warm}:raised", f"after a refused {route}: {type(e).__name__}: {str(e)[:200]}"))
+                    continue
+                bad = sorted(i for i, v in disk.items() if ref(v) != i)
+                if byid != old_sp or found != [old_id] or bad:
+                    out.append((f"refused:{route}:{warm}", f"after a refused {route} ({warm} handle) the same session opens {old_id[:8]} with {byid} (it is {old_sp}), "
+                                                          f"finds {len(found)} jobs without b, cache file entries not hashing to their key: {bad}"))
+    return out
+
+
 def _stale_one(change, first):
     import gzip
     import json
@@ -117,6 +173,8 @@ def run(tier="quick", seed=0):
     r.update(scope="random histories (length 14 quick / 40 thorough) of {init, doc edit/reset, file, remove, clear/reset, re-key by 6 routes, move, clone, handle copy/deepcopy/pickle/reopen/drop, "
                    "update_cache/restart/delete cache} over 2 projects, 4 keys x 8 values; model equality, check(), listing==len==membership, no temp files, live handles follow -- after every step", rule=RULE)
     from .common import script_header
+    for key, msg in refused_rekey_check():
+        r["failures"].append({"key": key, "description": msg, "script": script_header() + "sys.path.insert(0, '/verif')\nfrom pybound.c08 import refused_rekey_check\nr = refused_rekey_check()\nassert not r, r\n"})
     for key, msg in rekey_then_reinit_check():
         r["failures"].append({"key": key, "description": msg, "script": script_header() + "sys.path.insert(0, '/verif')\nfrom pybound.c08 import rekey_then_reinit_check\nr = rekey_then_reinit_check()\nassert not r, r\n"})
     for key, msg in stale_cache_scenarios():
